@@ -45,6 +45,9 @@ def check_one(ctx, res, seed, st, samples, distinct):
     ov = S.overrides(res)
     qidx = []
     for i, t in enumerate(qs):
+        if CR.big_array(t):
+            st["skipped_types"] += 1     # serde has no Deserialize for arrays of more than 32 elements
+            continue
         if CR.referenced(t, set()) & ov or {d["ident"] for d in reach(by, t)} & unparsable:
             st["skipped_types"] += 1
             continue
